@@ -37,6 +37,8 @@ type Variant struct {
 	// What a swap mints depends on the scales of the tokens as they are on *this* path; sibling paths (and with
 	// them every discarded branch a node executes: failed transactions, simulations) may have seen other ones.
 	LateIssue bool
+	// ContractScale: decimals the ERC20 contract is deployed with (0 = the token's own scale, 6)
+	ContractScale uint32
 }
 
 // lateModel: the scale the second fee token was issued with on this path (0 = not issued yet).
@@ -100,7 +102,12 @@ func (d *Driver) Init(e *mc.Env) *mc.State {
 	} else {
 		must(s.Deliver(e, "fx-issue-b", &v1.MsgIssueToken{Symbol: symB, Name: "B", MinUnit: unitB, Scale: 18, InitialSupply: 5, MaxSupply: 1000, Mintable: true, Owner: mc.Addr("A").String()}), "issue b")
 	}
-	must(s.Deliver(e, "fx-deploy", &v1.MsgDeployERC20{Symbol: symA, Name: "A", Scale: 6, MinUnit: unitA, Authority: mc.Authority().String()}), "deploy erc20")
+	// the contract's own decimals are an argument of the deployment and need not be the token's scale
+	dscale := uint32(6)
+	if d.V.ContractScale > 0 {
+		dscale = d.V.ContractScale
+	}
+	must(s.Deliver(e, "fx-deploy", &v1.MsgDeployERC20{Symbol: symA, Name: "A", Scale: dscale, MinUnit: unitA, Authority: mc.Authority().String()}), "deploy erc20")
 	tok, err := e.Token.GetToken(s.Ctx, unitA)
 	if err != nil {
 		panic(err)
